@@ -57,6 +57,8 @@ Definition dap_step_exit_code (o : outcome) : option Z :=
   | _ => None
   end.
 
+Definition last_error (l : list outcome) : option outcome := match rev l with o :: _ => Some o | [] => None end.
+
 (* every exit code an outcome list carries (hook on_exit / StopReason::DebugeeExit / Err(ProcessExit)
    after the exit handling) *)
 Definition exit_codes (l : list outcome) : list Z :=
@@ -66,18 +68,24 @@ Definition exit_codes (l : list outcome) : list Z :=
 (* WatchpointRegistry::clear_all, watchpoint.rs:682-688: `remove(0)` as many times as there are
    watchpoints, errors dropped by weak_error!, then last_seen_state = None.  remove(idx) takes the
    watchpoint out of the vector BEFORE disabling it (watchpoint.rs:629), so an error still shortens the
-   vector. *)
+   vector; a panic (HardwareBreakpoint::disable: `self.register.expect("should exist")`,
+   watchpoint.rs:172, = Panic 2 of Wp.hw_disable) is not caught by weak_error!. *)
 Definition drop_first (s : Wp.st) : Wp.st := with_wps s (tl (wps s)) (last_seen s) (wp_counter s).
-Fixpoint clear_n (n : nat) (s : Wp.st) : Wp.st :=
+Fixpoint clear_n (n : nat) (s : Wp.st) : res Wp.st :=
   match n with
-  | O => s
-  | S k => clear_n k (match remove_at s O with Ok s' => s' | _ => drop_first s end)
+  | O => Ok s
+  | S k => match remove_at s O with
+           | Ok s' => clear_n k s'
+           | Err _ => clear_n k (drop_first s)
+           | Panic site => Panic site
+           | OutOfFuel => OutOfFuel
+           end
   end.
-Definition clear_all (s : Wp.st) : Wp.st :=
-  let s' := clear_n (length (wps s)) s in with_wps s' (wps s') None (wp_counter s').
+Definition clear_all (s : Wp.st) : res Wp.st :=
+  s' <- clear_n (length (wps s)) s ;; Ok (with_wps s' (wps s') None (wp_counter s')).
 
-(* the same when the process is gone: HardwareDebugState::current(proc_pid) fails with ESRCH in every
-   remove (watchpoint.rs:171), nothing is written, the vector is emptied *)
+(* the same when the process is gone: HardwareDebugState::current(proc_pid)? fails with ESRCH in
+   every remove (watchpoint.rs:171, before the expect), nothing is written, the vector is emptied *)
 Definition clear_all_dead (s : Wp.st) : Wp.st := with_wps s [] None (wp_counter s).
 
 (* an attached process: every thread found in /proc/<pid>/task, debug registers as the kernel
@@ -87,20 +95,21 @@ Definition wst_attached (tids : list N) : Wp.st :=
 
 Record world := mk_world { w_bp : BpMachine.st; w_wp : Wp.st }.
 
-Definition clear_for (s : BpMachine.st) (w : Wp.st) : Wp.st :=
-  match s_status s with Exited => clear_all_dead w | _ => clear_all w end.
+Definition clear_for (s : BpMachine.st) (w : Wp.st) : res Wp.st :=
+  match s_status s with Exited => Ok (clear_all_dead w) | _ => clear_all w end.
 
 (* Debugger::detach, mod.rs:466-499 *)
-Definition detach_w (off : N) (x : world) : world :=
-  if s_detached (w_bp x) then x else mk_world (detach off (w_bp x)) (clear_for (w_bp x) (w_wp x)).
+Definition detach_w (off : N) (x : world) : res world :=
+  if s_detached (w_bp x) then Ok x else
+  w' <- clear_for (w_bp x) (w_wp x) ;; Ok (mk_world (detach off (w_bp x)) w').
 
 (* Drop for Debugger, mod.rs:1275-1372: clear_all runs for an external process in every state and for
    a launched one that is InProgress *)
-Definition drop_w (off : N) (x : world) : world :=
-  if s_detached (w_bp x) then x else
-  let w' := if s_external (w_bp x) then clear_for (w_bp x) (w_wp x)
-            else match s_status (w_bp x) with InProgress => clear_all (w_wp x) | _ => w_wp x end in
-  mk_world (drop off (w_bp x)) w'.
+Definition drop_w (off : N) (x : world) : res world :=
+  if s_detached (w_bp x) then Ok x else
+  w' <- (if s_external (w_bp x) then clear_for (w_bp x) (w_wp x)
+         else match s_status (w_bp x) with InProgress => clear_all (w_wp x) | _ => Ok (w_wp x) end) ;;
+  Ok (mk_world (drop off (w_bp x)) w').
 
 (* all eight enable bits L0..L3 / G0..G3 of a DR7 image are clear *)
 Definition dr7_quiet (d7 : N) : bool :=
